@@ -1,7 +1,8 @@
 (* Properties/C03.v -- C03: rates conserve the texture manifold.
    Only statements; each is closed by `exact` of a lemma proved elsewhere. *)
 From Coq Require Import Reals ZArith List.
-From PV Require Import Num NumR Model_core Proofs_core Proofs_total Inst_core.
+From Coquelicot Require Import Hierarchy Derive.
+From PV Require Import Num NumR Model_core Model_minerals Proofs_core Proofs_total Inst_core Proofs_flow Proofs_path Proofs_path2.
 From PV.gen Require Import Gen_core.
 Import ListNotations.
 Open Scope R_scope.
@@ -96,3 +97,42 @@ Example C03_nonvacuous :
   dislocation_regime 4 /\ valid_pair 0 2 /\ (3.5 <> 0) /\
   rsum [0.5; 0.5; 0] = 1 /\ nth 2 [0.5; 0.5; 0] 0 = 0.
 Proof. exact C03_nonvacuous_proof. Qed.
+
+(* ---- capstones for the texture ODE itself -------------------------------------------------------
+   y is the state vector (entries 9 + 9 n + g, g < n, are the grain volume fractions);
+   vf ... L s y i (Proofs_path.vf) is component i of the modelled eval_rhs at state y for velocity gradient
+   L and strain-rate scale s; f ... Lh sh t y i is the same along a history (Lh t, sh t).  Where eval_rhs
+   raises the modelled field is 0, so every regime ordinal is covered. *)
+
+(* the vector field itself: the n volume rates sum to zero at every state that has a grain of positive
+   volume (otherwise extract_vars' normalisation divides by zero and the code produces NaN) -- although
+   extract_vars clips and renormalises the fractions before the kernel sees them *)
+Theorem C03_field_volume_rates_sum_zero :
+  forall (regime ph fb : Z) (n : nat) (ass : list Z) (frs Sd : list R) (p nn lam M : R)
+         (L : list R) (s : R) (y : nat -> R),
+  (exists g, (g < n)%nat /\ 0 < y (9 + 9 * n + g)%nat) ->
+  rsum (map (fun g => vf regime ph fb n ass frs Sd p nn lam M L s y (9 + 9 * n + g)%nat) (seq 0 n)) = 0.
+Proof. exact vf_volume_sum. Qed.
+
+(* hence sum_{g<n} f_g(t) is constant along every exact solution (any regime, mineral, parameters) *)
+Theorem C03_solution_conserves_volume :
+  forall (regime ph fb : Z) (n : nat) (ass : list Z) (frs Sd : list R) (p nn lam M : R)
+         (Lh : R -> list R) (sh : R -> R) (y : nat -> R -> R) (a b : R),
+  a <= b ->
+  (forall i t, a <= t <= b ->
+     is_derive (y i) t (f regime ph fb n ass frs Sd p nn lam M Lh sh t (fun j => y j t) i)) ->
+  (forall t, a <= t <= b -> exists g, (g < n)%nat /\ 0 < y (9 + 9 * n + g)%nat t) ->
+  rsum (map (fun g => y (9 + 9 * n + g)%nat b) (seq 0 n)) = rsum (map (fun g => y (9 + 9 * n + g)%nat a) (seq 0 n)).
+Proof. exact solution_volume_constant. Qed.
+
+(* non-vacuity of the hypotheses (jointly): see C01_solution_nonvacuous *)
+Example C03_solution_nonvacuous :
+  let y := fun (i : nat) (_ : R) => y0_example i in
+  dislocation_regime 4 /\
+  (forall i t, is_derive (y i) t
+     (f 4 0 0 2 [0%Z] [1] [] 1.5 3.5 30 125 (fun _ => repeat 0 9) (fun _ => 0) t (fun j => y j t) i)) /\
+  (forall g k t, (g < 2)%nat -> (k < 9)%nat -> -1 <= y (9 + 9 * g + k)%nat t <= 1) /\
+  (forall t, exists g, (g < 2)%nat /\ 0 < y (9 + 9 * 2 + g)%nat t) /\
+  (forall t, exists out, @rhs NumR 4 0 0 2 [0%Z] [1] (repeat 0 9) 0 [] 1.5 3.5 30 125 (ylist 2 (fun j => y j t)) = Ok out) /\
+  (forall r r', (r < 3)%nat -> (r' < 3)%nat -> gram (grainA y 1) r r' 0 = if Nat.eqb r r' then 1 else 0).
+Proof. exact solution_hyps_nonvacuous_proof. Qed.
